@@ -64,7 +64,7 @@ namespace mc
     bool guarded(const std::function<void()> &f);
 
     // ---- registration ----
-    void add_check(const std::string &name, std::function<void()> body);
+    void add_check(const std::string &name, std::function<void()> body, bool thorough_only = false);
 
     struct Model
     {
@@ -79,6 +79,7 @@ namespace mc
         int depth_quick = 1000;
         int depth_thorough = 1000;
         long max_states = 4000000;
+        bool thorough_only = false;
     };
     void add_bfs(const std::string &name,
                  std::function<std::unique_ptr<Model>()> factory,
